@@ -266,13 +266,11 @@ cpdef bint isdiag_dia(Dia matrix, double tol=-1) nogil:
 
 
 cpdef bint isdiag_csr(CSR matrix) nogil:
-    cdef size_t row, ptr_start, ptr_end=matrix.row_index[0]
+    cdef size_t row, ptr
     for row in range(matrix.shape[0]):
-        ptr_start, ptr_end = ptr_end, matrix.row_index[row + 1]
-        if ptr_end - ptr_start > 1:
-            return False
-        if ptr_end - ptr_start == 1:
-            if matrix.col_index[ptr_start] != row:
+        for ptr in range(matrix.row_index[row], matrix.row_index[row + 1]):
+            # Explicitly stored zeros are not off-diagonal elements.
+            if matrix.col_index[ptr] != row and matrix.data[ptr] != 0.:
                 return False
     return True
 
